@@ -19,7 +19,7 @@ D = os.path.join(SPEC, "poolcb")
 
 # mirrors of the code the explorer is parametrised with (see PoolCallbacks.tla CONSTANTS)
 CATCH_UNWIND = True      # pool_managed.rs insert_with / with_iter wrap the closure in catch_unwind
-BOOK_FIRST = False       # pool_raw.rs remove: length/vacancy updated before the destructor runs
+BOOK_FIRST = True        # pool_raw.rs remove: length/vacancy updated before the destructor runs
 
 POOLS = {("mutex", True): ["OpaquePool", "PinnedPool"], ("mutex", False): ["BlindPool"],
          ("refcell", True): ["LocalOpaquePool", "LocalPinnedPool"], ("refcell", False): ["LocalBlindPool"],
@@ -236,11 +236,17 @@ def check(run):
         aborted += events[-1]["a"] == "abort"
         run.cov["traces_validated_against_impl"] += 1
         run.cov["evaluations"] += len(events)
-        if norm(events, fill) != norm(progs[pi]["hist"]):
+        pred = norm(progs[pi]["hist"])
+        if rp["fill"] and pr["disc"] == "none":
+            # with fillers in it the raw pool is not dropped at the end (DropPolicy::MustNotDropContents would object)
+            k = next((n for n, e in enumerate(pred) if e[:2] == ("call", "droppool")), None)
+            if k is not None:
+                del pred[k:k + 2]
+        if norm(events, fill) != pred:
             drift += 1
             if len(drift_samples) < 3:
                 drift_samples.append({"pool": rp["pool"], "fill": rp["fill"], "prog": pr,
-                                      "predicted": norm(progs[pi]["hist"]), "recorded": norm(events, fill)})
+                                      "predicted": pred, "recorded": norm(events, fill)})
         rk = None
         if j in rrej:
             rk = key_of(pr, events, rrej[j], line)
